@@ -3209,8 +3209,15 @@ cdata_call(CDataObject *cd, PyObject *args, PyObject *kwds)
                     goto error;
             }
         }
-        else if (convert_from_object(data, argtype, obj) < 0)
-            goto error;
+        else {
+            if (argtype->ct_flags & (CT_STRUCT | CT_UNION)) {
+                /* fields missing from a list/tuple/dict initializer
+                   must be zero, like with ffi.new() */
+                memset(data, 0, argtype->ct_size);
+            }
+            if (convert_from_object(data, argtype, obj) < 0)
+                goto error;
+        }
     }
 
     resultdata = buffer + cif_descr->exchange_offset_arg[0];
